@@ -28,7 +28,7 @@ KIND_OF_VAR = {'angular position': 'AngularPosition', 'angular speed': 'AngularS
                'load torque': 'Torque', 'tangential force': 'Force', 'bending stress': 'Stress',
                'contact stress': 'Stress', 'electric current': 'Current', 'pwm': None}
 ATTR_OF_VAR = {v: v.replace(' ', '_') for v in KIND_OF_VAR}
-EVENTS = ['R3', 'RS', 'R2', 'X']
+EVENTS = ['R3', 'RS', 'R2', 'X', 'RM']
 
 
 def bounds(tier):
@@ -62,6 +62,7 @@ def configs():
         for fw in itertools.product([False, True], repeat=2):
             out.append(('worm->wheel', (d,), fw))
             out.append(('wheel->worm', fw, (d,)))
+            out.append(('worm->wheel-held-from-start', (d,), fw))   # self-locking, back-driving initial speed: held at instant 0
     return out
 
 
@@ -82,12 +83,12 @@ def make_spec(cfg, hosting, cur):
         b = dict({'k': 'H', 'z': 30, 'J': J, 'beta': [20.0, 'deg']}, **gear_data(fb))
         link = {'t': 'G', 'eta': 0.9}
         tail_e, tail_l = [], []
-    elif fam == 'worm->wheel':
+    elif fam in ('worm->wheel', 'worm->wheel-held-from-start'):
         a = {'k': 'Wg', 'starts': 2, 'J': J, 'beta': [10.0, 'deg'], 'alpha': [20.0, 'deg']}
         if fa[0]:
             a['d'] = [10.0, 'mm']
         b = dict({'k': 'Ww', 'z': 30, 'J': J, 'beta': [10.0, 'deg'], 'alpha': [20.0, 'deg']}, **gear_data(fb))
-        link = {'t': 'W', 'f': 0.1}
+        link = {'t': 'W', 'f': 0.1 if fam == 'worm->wheel' else 0.3}
         tail_e, tail_l = [], []
     else:
         a = dict({'k': 'Ww', 'z': 30, 'J': J, 'beta': [10.0, 'deg'], 'alpha': [20.0, 'deg']}, **gear_data(fa))
@@ -101,6 +102,8 @@ def make_spec(cfg, hosting, cur):
     els = [motor] + pre_e + [a, b] + tail_e
     links = [{'t': 'J'}] + pre_l + [link] + tail_l
     spec = {'elements': els, 'links': links, 'init': {'theta': [0.0, 'rad'], 'w': [0.0, 'rad/s']}}
+    if fam == 'worm->wheel-held-from-start':
+        spec['init'] = {'theta': [0.0, 'rad'], 'w': [-1.0, 'rad/s']}
     spec['load'] = ['const', 0.2 * menu.stall_at_output(spec)]
     return spec
 
@@ -133,6 +136,8 @@ def valid_histories(depth):
             ran = False
             ok = True
             for e in h:
+                if e == 'RM':
+                    continue
                 if e == 'X':
                     if not ran:
                         ok = False
@@ -140,7 +145,7 @@ def valid_histories(depth):
                     ran = False
                 else:
                     ran = True
-            if ok:
+            if ok and h[0] != 'RM' and not any(a == 'RM' and b == 'RM' for a, b in zip(h, h[1:])):
                 out.append(h)
     return out
 
@@ -154,6 +159,11 @@ def do_event(m, e):
     elif e == 'RS':
         cur = si.q_si(m.elements[-1].angular_position)
         m.run(DT, [DT[0] * 4, 'sec'], stop=sim.make_stop(m, ['encoder', n - 1, '>=', [cur + 1e-4, 'rad']]))
+    elif e == 'RM':
+        # the user declares every mating of the chain again (same partners, same parameters)
+        for i, link in enumerate(m.spec['links']):
+            if link['t'] != 'J':
+                sim.declare(m.elements[i], m.elements[i + 1], link)
     else:
         m.pt.reset()
         m.apply_init()
